@@ -54,8 +54,11 @@ TagsInv == TagsAgree
     cases = json.load(open(cases_f))
     pols = json.load(open(pols_f))
 
+    emit = ctx.path("emit", "x")
+    emit = os.path.dirname(emit)
+
     def run(mode, payload):
-        rc, out, err = ctx.run([tc, "-mode", mode], input=json.dumps(payload), timeout=1200)
+        rc, out, err = ctx.run([tc, "-mode", mode] + (["-emit", emit] if mode == "policies" else []), input=json.dumps(payload), timeout=1200)
         if rc != 0:
             raise vlib.Machinery("textcheck %s failed: %s" % (mode, err[-1500:]))
         return json.loads(out.strip().splitlines()[-1])
@@ -67,6 +70,47 @@ TagsInv == TagsAgree
         for v in res["violations"]:
             ctx.violation(v.splitlines()[0], {"what": what, "detail": v, "how": "./check C14 quick (re-generates the cases with TLC and re-runs cmd/textcheck)"})
     ctx.cov["traces_validated_against_impl"] = len(pols) * 3
+    # "as the sandbox command does": the real cmd/sandbox (built from the tree with one overlay file that dumps what LoadFilter is
+    # about to install, hook H2) reads the documented YAML of the same policies from a FILE; what it installs must be the program
+    # of the in-memory policy. Every 3rd file is blown up with comment lines to 70 KB (thorough: also 1.1 MB) at a seeded place.
+    import random
+    import cmdfam
+    d = cmdfam.pubdir(ctx)
+    sb = cmdfam.build_sandbox_dump(ctx, d)
+    if sb:
+        rnd = random.Random(ctx.seed)
+        idxs = list(range(len(pols)))
+        rnd.shuffle(idxs)
+        nrun = nbig = nrefused = 0
+        for n, i in enumerate(idxs[:(len(idxs) if th else 160)]):
+            yml, want = os.path.join(emit, "pol_%d.yml" % i), os.path.join(emit, "pol_%d.want" % i)
+            if not (os.path.exists(yml) and os.path.exists(want)):
+                continue
+            size = 0
+            if n % 3 == 0:
+                lines = open(yml).read().splitlines(True)
+                size = 1100000 if (th and n % 9 == 0) else 70000
+                at = rnd.randrange(1, len(lines) + 1)
+                lines[at:at] = ["#" + "." * 62 + "\n"] * (size // 64)
+                with open(yml, "w") as f:
+                    f.write("".join(lines))
+                nbig += 1
+            prog, rc, err = cmdfam.sandbox_installs(sb, yml, emit, str(i))
+            nrun += 1
+            if prog is None:
+                nrefused += 1
+                if nrefused <= 3:
+                    ctx.note("the sandbox command installed nothing for policy %d (%s bytes of padding; rc %s): %s" % (i, size, rc, (err or "")[-120:]))
+                continue
+            if prog != open(want).read():
+                ctx.violation("policy %d read by the sandbox command from a %s file is installed as a different program than the in-memory policy compiles to (%d vs %d instructions)"
+                              % (i, "%d-byte padded" % size if size else "plain", len(prog.splitlines()), len(open(want).read().splitlines())),
+                              {"what": "cmd/sandbox configuration path", "policy": pols[i], "padding_bytes": size, "yaml_head": open(yml).read()[:600],
+                               "how": "./check C14 quick"})
+        ctx.cov["evaluations"] += nrun
+        ctx.cov["sandbox_command_reads"] = {"files": nrun, "padded_beyond_64KiB": nbig, "nothing_installed": nrefused}
+        if nrun and nrefused > nrun // 2:
+            raise vlib.Machinery("the overlay build of the sandbox installs nothing for most policies (%d of %d)" % (nrefused, nrun))
     ctx.cov["parse_cases"] = len(cases)
     ctx.cov["policies"] = len(pols)
     for s in rq["samples"][:1]:
